@@ -62,6 +62,18 @@ func (ts *TransactionStore) Delete(pktID uint16) {
 	delete(ts.bypktID, pktID)
 }
 
+// DeleteTransaction removes the given transaction from the store by the
+// MessageID. It does nothing if another transaction has been stored under the
+// same MessageID in the meantime - a finished or superseded transaction must not
+// remove its successor.
+func (ts *TransactionStore) DeleteTransaction(pktID uint16, transaction Transaction) {
+	ts.Lock()
+	defer ts.Unlock()
+	if stored, ok := ts.bypktID[pktID]; ok && stored == transaction {
+		delete(ts.bypktID, pktID)
+	}
+}
+
 // DeleteByType removes a transaction from the store by the PacketType.
 func (ts *TransactionStore) DeleteByType(pktType pkts.PacketType) {
 	ts.Lock()
